@@ -6,7 +6,7 @@ from hypothesis import strategies as st
 
 from ..core import Clause, Discard, call, require
 from ..strategies import round_linear_tri_specs, tame_threshold_case, threshold_configs, with_config, bank_specs, floats
-from .c05 import _thr, apply_warmup, bank_labels, build_or_discard, narrowed_specs, warmups
+from .c05 import check_triple, enum_triples, _thr, apply_warmup, bank_labels, build_or_discard, narrowed_specs, warmups
 
 PROPERTY = "C07"
 LEVEL = "exploration"
@@ -186,6 +186,10 @@ def _cases():
 
 def clauses(tier):
     return [
+        Clause("request_orders", check_triple,
+               "exhaustive: every ordered triple of requests (get_impulse_response / get_frequency_response, two filters, two or three widths) on one bank "
+               "object per bank class; the last answer must equal a fresh bank's. Non-trivial = three different requests",
+               None, enumerate=lambda tier: enum_triples(("imp", "freq"), widths=(48, 80, 112)), enum_name="all_triples"),
         Clause("agree", with_config(check_agree),
                "one (bank, filter with supports_hz span <= rate, width in {base, base+1, [base, 4 base]}) per case: |ifft(H) - h| <= 2 thr, dtype real iff is_real, |h| < 2 thr outside supports (mod width), |H| < 2.5 thr outside supports_hz (mod rate, mirrored if real), supports straddle 0 / start at 0. Non-trivial = temporal support >= 5 samples and width != base",
                _cases, quick=3000, thorough=160000),
